@@ -47,16 +47,18 @@ def gen_pair(rng, tier, force_small=None):
         top = big if rng.random() < 0.25 else big // 3
         m, n = int(rng.integers(0, top + 1)), int(rng.integers(0, top + 1))
     scale = gen.pick_scale(rng)
-    kind = None if rng.random() < 0.5 else str(rng.choice(["grid", "grid", "dyadic", "equal", "neartie", "float"]))
+    kind = None if rng.random() < 0.5 else str(rng.choice(["grid", "grid", "dyadic", "equal", "neartie", "float", "h0", "decimal", "decimal"]))
     A = gen.diagram(rng, m, kind, scale)
     B = gen.diagram(rng, n, kind, scale)
+    if kind == "h0" and m and n:
+        B[:, 1] += A[0, 0] - B[0, 0]; B[:, 0] = A[0, 0]          # the same birth value in both diagrams (two Rips H0 diagrams)
     if m and n and rng.random() < 0.15:       # jittered / partial copy: near-zero distances and forced diagonal pairs
         take = rng.integers(0, m, size=n)
         B = A[take] + (rng.integers(-1, 2, size=(n, 2)) * scale * float(rng.choice([0, 1, 0.25])))
         B[:, 1] = np.maximum(B[:, 1], B[:, 0])
     if rng.random() < 0.15:
         A = gen.specialize(rng, A, scale); B = gen.specialize(rng, B, scale)
-    if rng.random() < 0.15:
+    if rng.random() < (0.15 if kind != "decimal" else 0.6):
         B = gen.entangle(rng, A, B)
     if m >= 2 and rng.random() < 0.12:        # same births and same deaths, paired differently (fast paths comparing columns)
         B = gen.repaired(rng, A)
@@ -121,6 +123,17 @@ def run_case(ctx, k, rng):
             ctx.mark_nontrivial(A, B)
             ctx.note("nontrivial:cross-forced" if thr < alld else "nontrivial:tie-at-optimum")
 
+    if A.size and B.size and scale_of(A, B) > 1e-100 and rng.random() < 0.12:
+        # history: the same array objects, updated in place between two calls, must be answered for their current values
+        PA, PB = A.copy(), B.copy()
+        try:
+            first = call(ctx, PA, PB)
+            how = vforms.update_in_place(rng, PA if rng.random() < 0.7 else PB, scale_of(A, B))
+            v_now, v_fresh = call(ctx, PA, PB), OM.bottleneck_threshold(OM.finite_rows(PA.copy()), OM.finite_rows(PB.copy()))
+            ctx.check("after an in-place update the value is that of the current contents", abs(float(v_now) - v_fresh) <= 1e-9 * scale_of(PA, PB),
+                      got=v_now, oracle_on_current_values=v_fresh, before_update=first, update=how)
+        except Exception as e:
+            ctx.exception("after an in-place update the value is that of the current contents", e)
     sub = int(rng.integers(0, 3))
     if sub == 0:   # infinite deaths: dropped with a warning, value unchanged
         which = int(rng.integers(1, 4))
